@@ -351,6 +351,7 @@ func cmdReplay(args []string) {
 // --- site table ---------------------------------------------------------------
 
 var siteNames []string
+var siteSync []bool // site is a synchronising statement or the statement right after one
 
 func loadSites(path string) {
 	if path == "" {
@@ -362,11 +363,13 @@ func loadSites(path string) {
 	}
 	lines := strings.Split(string(b), "\n")
 	siteNames = make([]string, len(lines)+2)
+	siteSync = make([]bool, len(lines)+2)
 	for _, l := range lines {
 		var id int
-		var loc string
-		if n, _ := fmt.Sscanf(l, "%d %s", &id, &loc); n == 2 && id < len(siteNames) {
+		var loc, flag string
+		if n, _ := fmt.Sscanf(l, "%d %s %s", &id, &loc, &flag); n >= 2 && id < len(siteNames) {
 			siteNames[id] = loc
+			siteSync[id] = flag == "S" || flag == "A"
 		}
 	}
 }
